@@ -10,15 +10,21 @@
           | d <paths>          v := delpaths(v, paths)                 (its own fresh allocator)
           | N                  a := new allocator
      src ::= L <tlit> | R<k> | W<k> (= [r_k, r_k]) | O<k> (= {"x": r_k})
-     path ::= p:<elem>,<elem>…   elem ::= k<hex> | i<int>      paths ::= P:<path>|<path>…
+     path ::= p:<elem>,<elem>…   elem ::= k<hex> | i<int> | l<bound>:<bound>   bound ::= <int> | n
+                                 (l = the slice `{"start":…,"end":…}`, n = null)   paths ::= P:<path>|<path>…
      tlit ::= n | t | f | i<int> | s<hex> | [ c<cap> tlit* ] | { s<hex> tlit … }
    Answer: per op `ok <dag> W=<n,…>` or `err`, joined by " ; ", where <dag> renders ALL roots (v, then
    the registers) as one DAG — containers numbered in order of first visit, `!` = registered in the
    allocator, `^n` = the container already visited — and W lists the containers that existed before
-   the op (numbers of the PREVIOUS rendering) whose shallow content changed: the in-place writes.
-   `?…` = not modelled (slice-header effects on aliased arrays, cyclic stores).
+   the op (numbers of the PREVIOUS rendering) whose shallow content changed: the in-place writes;
+   Z=<n> counts the DEAD registrations: labels registered in the allocator that no root reaches.
+   Paths without a slice element run the functions of Model/Heap.lean exactly as before; paths with a
+   slice element run `updS` / `markS` / `getpReleaseS` of Model/HeapSlice.lean.
+   `?…` = not modelled (slice-header effects on aliased arrays, cyclic stores, a plain getpath that
+   returns a second slice header, the clone of an empty slice of a registered array).
 -/
 import Gojq.Model.Heap
+import Gojq.Model.HeapSlice
 import Gojq.Model.Wire
 import Driver.Common
 open Gojq Gojq.Heap Gojq.Wire
@@ -75,23 +81,39 @@ partial def parseT (toks : List String) (f : Nat) : Option (T × List String × 
     | some (ks, rest', f') => some (.node f true 0 ks, rest', f')
   | tok :: rest => (parseScalar tok).map fun s => (.leaf s, rest, f)
 
-def parseElem (s : String) : Option PE :=
+def parseBound (s : String) : Option (Option Int) :=
+  if s == "n" then some none else s.toInt?.map some
+
+def parseElem (s : String) : Option PES :=
   match s.toList with
   | 'k' :: hs => (hexToBytes hs).map .key
   | 'i' :: ds => (String.ofList ds).toInt?.map .idx
+  | 'l' :: bs =>
+    match (String.ofList bs).splitOn ":" with
+    | [a, b] => match parseBound a, parseBound b with
+      | some x, some y => some (.slice x y)
+      | _, _ => none
+    | _ => none
   | _ => none
 
-def parsePathBody (s : String) : Option Path :=
+def parsePathBody (s : String) : Option PathS :=
   if s.isEmpty then some [] else (s.splitOn ",").mapM parseElem
 
-def parsePath (tok : String) : Option Path :=
+def parsePath (tok : String) : Option PathS :=
   if tok.startsWith "p:" then parsePathBody (String.ofList (tok.toList.drop 2)) else none
 
-def parsePaths (tok : String) : Option (List Path) :=
+def parsePaths (tok : String) : Option (List PathS) :=
   if tok.startsWith "P:" then
     let body := String.ofList (tok.toList.drop 2)
     if body.isEmpty then some [] else (body.splitOn "|").mapM parsePathBody
   else none
+
+/-- a path without slice elements, as a path of Model/Heap.lean -/
+def plain? (p : PathS) : Option Path :=
+  p.mapM fun e => match e with
+    | .key k => some (PE.key k)
+    | .idx i => some (PE.idx i)
+    | .slice _ _ => none
 
 /-! state and observation -/
 
@@ -189,6 +211,11 @@ def settle (old : St) (v' : T) (regs : List T) (A : List Nat) (f : Nat) (log : L
     | none => false
   some (st, "W=" ++ ",".intercalate (changed.map toString))
 
+/-- dead registrations: registered labels that no root reaches -/
+def dead (s : St) : Nat :=
+  let ids := (s.roots.map T.ids).flatten
+  (s.A.eraseDups.filter fun a => !ids.contains a).length
+
 def buildSrc (toks : List String) (s : St) : Option (T × Nat × List String) :=
   match toks with
   | "L" :: rest => match parseT rest s.f with
@@ -204,6 +231,39 @@ def buildSrc (toks : List String) (s : St) : Option (T × Nat × List String) :=
     | _ => none
   | [] => none
 
+/-- offset of the pointer of `getpath(p)`'s result from the base of its cell, when the result is a slice
+    header (`vs[start:end]` advances the pointer by `start` unless the remaining capacity is 0) -/
+def viewOffset : PathS → T → Nat → Option Nat
+  | [], _, off => some off
+  | e :: p, v, off =>
+    match e, v with
+    | .key _, .leaf .null => viewOffset p T.null 0
+    | .key k, .node _ true _ ks => viewOffset p ((splitKey k ks).2.1.getD T.null) 0
+    | .idx _, .leaf .null => viewOffset p T.null 0
+    | .idx i, .node _ false _ ks =>
+      match resolve i ks.length with
+      | .inr j => match splitIdx j ks with
+        | some r => viewOffset p r.2.1 0
+        | none => viewOffset p T.null 0
+      | _ => viewOffset p T.null 0
+    | .slice _ _, .leaf .null => viewOffset p T.null 0
+    | .slice s e, .node id false c ks =>
+      let b := sliceBounds s e ks.length
+      viewOffset p (.node id false (c - b.1) ((ks.drop b.1).take (b.2 - b.1))) (if c - b.1 == 0 then off else off + b.1)
+    | _, _ => none
+
+/-- `update`: Model/Heap.lean's `upd` for a path without slices, else Model/HeapSlice.lean's `updS` -/
+def updAny (A : List Nat) (f : Nat) (p : PathS) (v n : T) : Option (T × List Nat × Nat × Log) :=
+  match plain? p with
+  | some p0 => upd A f p0 v n
+  | none => updS A f p v n
+
+/-- the marking loop: `markAll` when no path has a slice, else `markAllS` -/
+def markAny (ps : List PathS) (st : T × List Nat × Nat × Log) : Option (T × List Nat × Nat × Log) :=
+  match ps.mapM plain? with
+  | some ps0 => markAll ps0 st
+  | none => markAllS ps st
+
 inductive Out where
   | ok (s : St) (w : String)
   | err
@@ -215,7 +275,7 @@ def runOp (toks : List String) (s : St) : Out :=
   | "S" :: ptok :: src =>
     match parsePath ptok, buildSrc src s with
     | some p, some (n, f1, []) =>
-      match upd s.A f1 p s.v n with
+      match updAny s.A f1 p s.v n with
       | none => .err
       | some (v', A', f', log) =>
         match settle s v' s.regs A' f' log with
@@ -225,7 +285,7 @@ def runOp (toks : List String) (s : St) : Out :=
   | "s" :: ptok :: src =>
     match parsePath ptok, buildSrc src s with
     | some p, some (n, f1, []) =>
-      match upd [] f1 p s.v n with
+      match updAny [] f1 p s.v n with
       | none => .err
       | some (v', _, f', log) =>
         match settle s v' s.regs s.A f' log with
@@ -234,21 +294,50 @@ def runOp (toks : List String) (s : St) : Out :=
     | _, _ => .unmodelled "parse"
   | ["G", ptok] =>
     match parsePath ptok with
-    | some p => match getpRelease s.A p s.v with
-      | none => .err
-      | some (x, A') => .ok { s with regs := s.regs ++ [x], A := A' } "W="
+    | some p =>
+      match plain? p with
+      | some p0 => match getpRelease s.A p0 s.v with
+        | none => .err
+        | some (x, A') => .ok { s with regs := s.regs ++ [x], A := A' } "W="
+      | none =>
+        -- the clone of an EMPTY slice keeps the pointer of the sliced array (`s[:0:0]`): when that array
+        -- is registered the clone counts as registered too, which labelled trees do not express
+        match getpS p s.v with
+        | some (.node id false _ []) =>
+          if endsWithSlice p && s.A.contains id && viewOffset p s.v 0 == some 0 then .unmodelled "empty-clone" else
+          match getpReleaseS s.A s.f p s.v with
+          | none => .err
+          | some (x, A', f') => .ok { s with regs := s.regs ++ [x], A := A', f := f' } "W="
+        | some (.node _ false _ xs) =>
+          -- `slices.Clone` = `append(s[:0:0], s...)`: capacity = length up to 16 elements (size classes)
+          if endsWithSlice p && xs.length > 16 then .unmodelled "clone-cap" else
+          match getpReleaseS s.A s.f p s.v with
+          | none => .err
+          | some (x, A', f') => .ok { s with regs := s.regs ++ [x], A := A', f := f' } "W="
+        | _ =>
+          match getpReleaseS s.A s.f p s.v with
+          | none => .err
+          | some (x, A', f') => .ok { s with regs := s.regs ++ [x], A := A', f := f' } "W="
     | none => .unmodelled "parse"
   | ["g", ptok] =>
     match parsePath ptok with
-    | some p => match getp p s.v with
-      | none => .err
-      | some x => .ok { s with regs := s.regs ++ [x] } "W="
+    | some p =>
+      match plain? p with
+      | some p0 => match getp p0 s.v with
+        | none => .err
+        | some x => .ok { s with regs := s.regs ++ [x] } "W="
+      | none => match getpS p s.v with
+        | none => .err
+        | some x =>
+          match endsWithSlice p, x with
+          | true, .node _ false _ _ => .unmodelled "view"     -- a second slice header onto a cell
+          | _, _ => .ok { s with regs := s.regs ++ [x] } "W="
     | none => .unmodelled "parse"
   | ["D", pstok] =>
     match parsePaths pstok with
     | some ps =>
       if ps.isEmpty then .ok s "W=" else
-      match markAll ps (s.v, s.A, s.f, []) with
+      match markAny ps (s.v, s.A, s.f, []) with
       | none => .err
       | some (u, A1, f1, log) =>
         match settle s (sweep A1 u) s.regs A1 f1 (log ++ sweepLog A1 u) with
@@ -259,7 +348,7 @@ def runOp (toks : List String) (s : St) : Out :=
     match parsePaths pstok with
     | some ps =>
       if ps.isEmpty then .ok s "W=" else
-      match markAll ps (s.v, [], s.f, []) with
+      match markAny ps (s.v, [], s.f, []) with
       | none => .err
       | some (u, A1, f1, log) =>
         match settle s (sweep A1 u) s.regs s.A f1 (log ++ sweepLog A1 u) with
@@ -287,7 +376,7 @@ def heapLine (line : String) : String :=
         | [] => " ; ".intercalate acc.reverse
         | op :: rest =>
           match runOp op s with
-          | .ok s' w => go rest s' (("ok " ++ renderRoots s' ++ " " ++ w) :: acc)
+          | .ok s' w => go rest s' (("ok " ++ renderRoots s' ++ " " ++ w ++ s!" Z={dead s'}") :: acc)
           | .err =>
             match op.head? with
             | some "D" | some "d" =>
